@@ -30,8 +30,12 @@ def run(pid, tier):
         chk.analysed["facts"] = {"key": ctx.meta["key"], "repo": ctx.meta["repo"], "source_files": ctx.meta["files"],
                                  "extract_s": ctx.meta["extract_s"]}
         mod.run(ctx, chk)
-        if tier == "thorough" and hasattr(mod, "thorough"):
-            mod.thorough(ctx, chk)
+        if tier == "thorough":
+            from . import thorough
+            thorough.features_config(ctx, chk)
+            thorough.witnesses(ctx, chk, pid)
+            if hasattr(mod, "thorough"):
+                mod.thorough(ctx, chk)
     except facts.ExtractError as ex:
         chk.rule("EXTRACT", "facts must be extractable from the current tree (the tree must build)")
         chk.bad("EXTRACT", "extract", "fact extraction failed: %s" % str(ex)[-1500:], key="EXTRACT")
